@@ -21,6 +21,7 @@ package main
 import (
 	"bufio"
 	"encoding/hex"
+	"errors"
 	"fmt"
 	"os"
 	"strconv"
@@ -264,7 +265,60 @@ func probe() {
 	sl := []int{1, 2, 3}
 	es := monoid.FromOp[[]int](sl, cat).Empty()
 	say("slice-identity FromOp", len(es) == 3 && &es[0] == &sl[0])
+	// ContraMap over pointer- and interface-typed arguments with a projection that is defined on nil: exactly the base
+	// instance on the projections, whatever the arguments are
+	val := func(b *box) int {
+		if b == nil {
+			return 0
+		}
+		return b.v
+	}
+	elen := func(e error) int {
+		if e == nil {
+			return 0
+		}
+		return len(e.Error())
+	}
+	ce := eq.ContraMap[int, *box]{Eq: eq.Int, ContraMap: val}
+	co := ord.ContraMap[int, *box]{Ord: ord.Int, ContraMap: val}
+	boxes := []*box{nil, {0}, {-5}, {5}, nil}
+	okE, okO := true, true
+	for _, a := range boxes {
+		for _, b := range boxes {
+			if ce.Equal(a, b) != eq.Int.Equal(val(a), val(b)) {
+				okE = false
+			}
+			if co.Compare(a, b) != ord.Int.Compare(val(a), val(b)) {
+				okO = false
+			}
+		}
+	}
+	say("pointer-args eq.ContraMap", okE)
+	say("pointer-args ord.ContraMap", okO)
+	ie := eq.ContraMap[int, error]{Eq: eq.Int, ContraMap: elen}
+	io_ := ord.ContraMap[int, error]{Ord: ord.Int, ContraMap: elen}
+	errs := []error{nil, errors.New(""), errors.New("ab"), tn0()}
+	okE, okO = true, true
+	for _, a := range errs {
+		for _, b := range errs {
+			if ie.Equal(a, b) != eq.Int.Equal(elen(a), elen(b)) {
+				okE = false
+			}
+			if io_.Compare(a, b) != ord.Int.Compare(elen(a), elen(b)) {
+				okO = false
+			}
+		}
+	}
+	say("interface-args eq.ContraMap", okE)
+	say("interface-args ord.ContraMap", okO)
 }
+
+type zeroErr struct{}
+
+func (*zeroErr) Error() string { return "" }
+
+// a typed nil pointer inside a non-nil interface value (its method is defined on nil)
+func tn0() error { return (*zeroErr)(nil) }
 
 func main() {
 	if len(os.Args) > 1 && os.Args[1] == "probe" {
